@@ -141,12 +141,14 @@ pub fn setup(rng: &mut Rng, sink: &mut Sink) -> World {
     let gw = gateway::setup_with_sets(rng, sink); // reset, users 0..4, gateway
     for i in 0..8 {
         sink.exec(&format!(
-            "acct {} 10000000000000000000 {}:0:1000000,{}:0:1000000,{}:0:1000000,{}:0:1000000",
+            "acct {} 10000000000000000000 {}:0:1000000,{}:0:1000000,{}:0:1000000,{}:0:1000000,{}:3:1000,{}:2:1000",
             hex::encode(user(i)),
             TOK,
             MB,
             OTH,
-            EGLD_ESDT
+            EGLD_ESDT,
+            TOK,
+            OTH
         ));
     }
     let owner = user(0);
@@ -201,6 +203,11 @@ pub fn setup(rng: &mut Rng, sink: &mut Sink) -> World {
         eth_set,
         ids: vec![],
     };
+    // the VM mock does not turn EGLD-000000 multi-transfers into native value: a service that holds some native
+    // value lets the "gas as EGLD-in-ESDT" shape go through (both sides see the same balances)
+    if rng.chance(3, 4) {
+        sink.exec(&format!("acct {} 100000 -", hex::encode(&w.its)));
+    }
     // canonical token (lock/unlock)
     let out = w.tx(sink, &user(1), "registerCanonicalInterchainToken", 0, "-", &[TOK.as_bytes().to_vec()]);
     w.track(&out, PendK::Exec);
@@ -253,6 +260,22 @@ pub fn factory_flow(rng: &mut Rng, sink: &mut Sink, w: &mut World, deployer: &[u
     if !complete && rng.chance(1, 3) {
         return;
     }
+    // the later steps repeat the request — now and then with a changed supply / minter, which must be judged on
+    // its own (a zero supply without a minter is refused on every step)
+    let vary = |rng: &mut Rng, a: &Vec<Vec<u8>>| -> Vec<Vec<u8>> {
+        let mut b = a.clone();
+        if !complete && rng.chance(1, 4) {
+            match rng.below(5) {
+                0 => { b[4] = nat(0); b[5] = vec![0u8; 32] }
+                1 => b[5] = vec![0u8; 32],
+                2 => b[4] = nat(0),
+                3 => b[4] = nat(777),
+                _ => b[5] = user(rng.below(6) as u8),
+            }
+        }
+        b
+    };
+    let a = vary(rng, &a);
     // step 2: issue (needs the issue cost)
     let out = w.tx(sink, deployer, "deployInterchainToken", *rng.pick(&[50000000000000000u128, 50000000000000000, 0]), "-", &a);
     w.track(&out, PendK::Issue);
@@ -273,14 +296,19 @@ pub fn factory_flow(rng: &mut Rng, sink: &mut Sink, w: &mut World, deployer: &[u
         w.pend.remove(i);
         if out.starts_with("ok") && out2.starts_with("ok") {
             if let Some(t) = tid.clone() {
+                // other users get some of the new token so that transfers of it can be requested by anybody
+                for k in [0u8, 2, 3, 4, 5] {
+                    sink.exec(&format!("acct {} 10000000000000000000 {}:0:5000", hex::encode(user(k)), newtok));
+                }
                 w.tokens.push((t, newtok, 0));
             }
         }
     }
-    if !complete && rng.chance(1, 3) {
-        return;
+    if (!complete && rng.chance(1, 3)) || supply == 987 {
+        return; // (supply 987 marks the directed flows that stop with the service still holding the roles)
     }
     // step 3: mint + hand-over
+    let a = vary(rng, &a);
     let out = w.tx(sink, deployer, "deployInterchainToken", 0, "-", &a);
     w.track(&out, PendK::Issue);
 }
@@ -288,8 +316,8 @@ pub fn factory_flow(rng: &mut Rng, sink: &mut Sink, w: &mut World, deployer: &[u
 pub fn gen(rng: &mut Rng, n: usize, sink: &mut Sink, focus: &str) {
     while sink.count < n {
         let mut w = setup(rng, sink);
-        if matches!(focus, "C18" | "C19" | "C04" | "C05" | "C08" | "C14") && rng.chance(2, 3) {
-            let minter = if rng.chance(1, 2) { user(4) } else { vec![0u8; 32] };
+        if rng.chance(2, 3) {
+            let minter = if rng.chance(3, 4) { user(4) } else { vec![0u8; 32] };
             let supply = *rng.pick(&[0u128, 1000, 1000]);
             let minter = if supply == 0 && minter.iter().all(|b| *b == 0) { user(4) } else { minter };
             factory_flow(rng, sink, &mut w, &user(1), &[7u8; 32], supply, &minter, true);
@@ -348,106 +376,198 @@ fn step(rng: &mut Rng, sink: &mut Sink, w: &mut World, focus: &str) {
     let caller = user(rng.below(6) as u8);
     match kind {
         0 | 1 => {
-            // inbound transfer
-            let (tid, _tok, _k) = pick_token(rng, w);
-            let dest = match rng.below(12) {
-                0 => vec![1u8; 31], // malformed recipient
-                _ => user(rng.below(6) as u8),
-            };
-            let amount = *rng.pick(&[1u128, 5, 10, 100, 1000, 6000]);
-            let dl = rng_len(rng);
-            let data = if kind == 1 { rng.bytes(dl) } else { vec![] };
-            let inner = match rng.below(16) {
-                0 => sol_enc("transfer", &[word_nat(7), tid.clone(), b"0xsrc".to_vec(), dest.clone(), word_nat(amount), data.clone()]), // unknown message type
-                1 => {
-                    // message-type word beyond every integer width the code converts through
-                    let mut w = vec![0u8; 32];
-                    match rng.below(4) {
-                        0 => w[24] = 0x80,                 // 2^63
-                        1 => w[23] = 1,                    // 2^64
-                        2 => w[0] = 0x80,                  // 2^255
-                        _ => { w[23] = 1; w[31] = 1 }      // 2^64 + 1
+            // inbound transfer: a valid approved message over a trusted route with (mostly) zero or one fault
+            // injected; the fully random mix now and then
+            let known: Vec<(Vec<u8>, String, u8)> = w.tokens.iter().filter(|t| !t.1.is_empty()).cloned().collect();
+            if known.is_empty() || rng.chance(1, 8) {
+                inbound_random(rng, sink, w, &caller, kind);
+            } else {
+                let (mut tid, _tok, _k) = rng.pick(&known).clone();
+                let fault = if rng.chance(1, 2) { 0 } else { rng.range(1, 22) };
+                let mut dest = user(rng.below(6) as u8);
+                let mut amount = *rng.pick(&[1u128, 5, 10, 100]);
+                let dl = rng_len(rng);
+                let data = if kind == 1 { rng.bytes(dl) } else { vec![] };
+                let mut mt_word = word_nat(0);
+                match fault {
+                    1 => dest = vec![1u8; 31],
+                    2 => dest = vec![1u8; 33],
+                    3 => dest = vec![],
+                    4 => tid = rng.bytes(32),
+                    5 => amount = 6000,
+                    6 => mt_word = word_nat(7),
+                    7 => {
+                        let mut x = vec![0u8; 32];
+                        match rng.below(4) {
+                            0 => x[24] = 0x80,
+                            1 => x[23] = 1,
+                            2 => x[0] = 0x80,
+                            _ => { x[23] = 1; x[31] = 1 }
+                        }
+                        mt_word = x;
                     }
-                    sol_enc("transfer", &[w, tid.clone(), b"0xsrc".to_vec(), dest.clone(), word_nat(amount), data.clone()])
+                    8 => mt_word = word_nat(*rng.pick(&[2u128, 3, 4, 6])),
+                    _ => {}
                 }
-                _ => transfer_payload(&tid, b"0xsrc", &dest, amount, &data),
-            };
-            let (chain, src, payload) = inbound_source(rng, &inner);
-            match rng.below(12) {
-                0 => {
-                    // not approved
-                    w.next_msg += 1;
-                    let id = format!("msg-{}", w.next_msg).into_bytes();
+                let inner = sol_enc("transfer", &[mt_word, tid.clone(), b"0xsrc".to_vec(), dest.clone(), word_nat(amount), data.clone()]);
+                // route
+                let direct = if w.eth_set && w.hub_set { rng.chance(1, 2) } else { w.eth_set };
+                let (mut chain, mut src, mut payload) = if direct {
+                    (ETH.to_vec(), ETH_ITS.to_vec(), inner.clone())
+                } else {
+                    (HUB.to_vec(), HUB_ITS.to_vec(), hub_wrap(4, &rng.pick(&[AVA.to_vec(), b"polygon".to_vec()]).clone(), &inner))
+                };
+                match fault {
+                    9 => { chain = b"nowhere".to_vec(); src = vec![]; payload = inner.clone() }
+                    10 => { chain = HUB.to_vec(); src = HUB_ITS.to_vec(); payload = hub_wrap(4, ETH, &inner) }
+                    11 => { chain = HUB.to_vec(); src = HUB_ITS.to_vec(); payload = inner.clone() }
+                    12 => { chain = ETH.to_vec(); src = HUB_ITS.to_vec(); payload = inner.clone() }
+                    13 => { chain = ETH.to_vec(); src = ETH_ITS.to_vec(); payload = hub_wrap(4, AVA, &inner) }
+                    14 => { chain = HUB.to_vec(); src = HUB_ITS.to_vec(); payload = hub_wrap(*rng.pick(&[3u128, 0, 5]), AVA, &inner) }
+                    15 => { chain = AVA.to_vec(); src = b"hub".to_vec(); payload = inner.clone() }
+                    _ => {}
+                }
+                let mut exec_src = src.clone();
+                let mut exec_payload = payload.clone();
+                let mut egld = 0u128;
+                let id = match fault {
+                    16 => {
+                        w.next_msg += 1;
+                        format!("msg-{}", w.next_msg).into_bytes() // never approved
+                    }
+                    17 => {
+                        let id = w.approve(rng, sink, &chain, &src, &payload, None);
+                        let l = exec_payload.len();
+                        exec_payload[l - 40] ^= 1; // approved, executed with a tampered payload
+                        id
+                    }
+                    18 => {
+                        // approved for another source address than the (trusted) one claimed at execution
+                        let id = w.approve(rng, sink, &chain, b"0xEvil", &payload, None);
+                        exec_src = src.clone();
+                        id
+                    }
+                    19 => {
+                        // approval addressed to another contract
+                        w.next_msg += 1;
+                        let id = format!("msg-{}", w.next_msg).into_bytes();
+                        let m = Msg { chain: chain.clone(), id: id.clone(), src: src.clone(), contract: user(3), ph: keccak(&payload) };
+                        let raw = m.enc();
+                        let set = w.gw.sets.last().unwrap().clone();
+                        let slots = vec![Slot::Valid; set.keys.len()];
+                        let proof = w.gw.proof(rng, sink, &set, 0, &raw, &slots);
+                        w.gw.tx(sink, &user(0), "approveMessages", &[raw, proof]);
+                        id
+                    }
+                    20 => {
+                        egld = 5;
+                        w.approve(rng, sink, &chain, &src, &payload, None)
+                    }
+                    21 => {
+                        // approved and executed under the wrong (untrusted) source address
+                        exec_src = b"0xEvil".to_vec();
+                        w.approve(rng, sink, &chain, b"0xEvil", &payload, None)
+                    }
+                    _ => w.approve(rng, sink, &chain, &src, &payload, None),
+                };
+                w.execute(sink, &caller, &chain, &id, &exec_src, &exec_payload, egld);
+                if rng.chance(1, 3) {
+                    // immediate second attempt (with the genuine fields)
                     w.execute(sink, &caller, &chain, &id, &src, &payload, 0);
                 }
-                1 => {
-                    // approved, executed with a tampered payload
-                    let id = w.approve(rng, sink, &chain, &src, &payload, None);
-                    let mut p2 = payload.clone();
-                    let l = p2.len();
-                    p2[l - 40] ^= 1;
-                    w.execute(sink, &caller, &chain, &id, &src, &p2, 0);
-                }
-                2 => {
-                    // wrong source address
-                    let id = w.approve(rng, sink, &chain, b"0xEvil", &payload, None);
-                    w.execute(sink, &caller, &chain, &id, b"0xEvil", &payload, 0);
-                }
-                3 => {
+                if rng.chance(1, 6) {
                     // replay of an earlier message
-                    if let Some((c, i, s, p)) = w.approved.last().cloned() {
-                        w.execute(sink, &caller, &c, &i, &s, &p, 0);
+                    if let Some((c, i, s2, p)) = w.approved.get(rng.below(w.approved.len() as u64) as usize).cloned() {
+                        w.execute(sink, &caller, &c, &i, &s2, &p, 0);
                     }
                 }
-                _ => {
-                    let id = w.approve(rng, sink, &chain, &src, &payload, None);
-                    w.execute(sink, &caller, &chain, &id, &src, &payload, if rng.chance(1, 15) { 5 } else { 0 });
-                    if rng.chance(1, 3) {
-                        // immediate second attempt
-                        w.execute(sink, &caller, &chain, &id, &src, &payload, 0);
-                    }
-                    sink.exec(&format!("query {} isMessageExecuted {}", hex::encode(&w.gw.addr), args(&[chain.clone(), id.clone()])));
-                    w.query(sink, "transferWithDataLock", &[chain.clone(), id.clone()]);
-                }
+                sink.exec(&format!("query {} isMessageExecuted {}", hex::encode(&w.gw.addr), args(&[chain.clone(), id.clone()])));
+                w.query(sink, "transferWithDataLock", &[chain.clone(), id.clone()]);
             }
         }
         2 => {
-            // outbound transfer
-            let (tid, tok, _k) = pick_token(rng, w);
-            let tok = if tok.is_empty() { OTH.to_string() } else { tok };
-            let tok = if rng.chance(1, 12) { OTH.to_string() } else { tok }; // token not matching the id
-            let amount = *rng.pick(&[0u128, 1, 10, 100, 1000]);
-            let gas = *rng.pick(&[0u128, 0, 1, 5, amount.saturating_sub(1), amount, amount + 1]);
-            let (egld, esdt) = if tok == "EGLD" {
-                match rng.below(4) {
-                    0 => (0u128, format!("{}:0:{},{}:0:{}", EGLD_ESDT, amount, EGLD_ESDT, gas)),
-                    _ => (amount, "-".to_string()),
-                }
+            // outbound transfer: a valid request with (mostly) zero or one fault injected, so that every
+            // refusal rule is met on an otherwise acceptable call; a fully random mix now and then
+            let known: Vec<(Vec<u8>, String, u8)> = w.tokens.iter().filter(|t| !t.1.is_empty()).cloned().collect();
+            if known.is_empty() || rng.chance(1, 10) {
+                outbound_random(rng, sink, w, &caller);
             } else {
-                match rng.below(8) {
-                    0 | 1 => (0u128, format!("{}:0:{},{}:0:{}", tok, amount, EGLD_ESDT, gas)), // gas as EGLD-in-ESDT
-                    2 => (0u128, format!("{}:0:{},{}:0:{}", tok, amount, OTH, gas)),            // gas in another ESDT
-                    3 => (0u128, format!("{}:0:{},{}:0:{}", tok, amount, tok, gas + 1)),          // second payment != gas
-                    4 => (0u128, format!("{}:0:{},{}:0:1,{}:0:1", tok, amount, OTH, OTH)),        // three payments
-                    _ => (0u128, format!("{}:0:{}", tok, amount)),
-                }
-            };
-            let dest_chain = rng.pick(&[ETH.to_vec(), ETH.to_vec(), AVA.to_vec(), AVA.to_vec(), b"nowhere".to_vec(), HUB.to_vec(), vec![]]).clone();
-            let dest_addr = if rng.chance(1, 10) { vec![] } else { b"0xRecipient".to_vec() };
-            if rng.chance(1, 2) {
-                let metadata: Vec<u8> = match rng.below(6) {
-                    0 => vec![],
-                    1 => cat(&[&[0, 0, 0, 0], &nest_buf(b"hello-data")]),
-                    2 => vec![0, 0, 0, 0],
-                    3 => cat(&[&[0, 0, 0, 1], &nest_buf(b"v1")]), // unsupported version
-                    4 => vec![1, 2, 3],                          // too short to decode
-                    _ => cat(&[&[0, 0, 0, 0], &[0, 0, 0, 9, 1]]), // truncated data
+                let (tid, tok, _k) = rng.pick(&known).clone();
+                let amount = *rng.pick(&[1u128, 2, 10, 100, 1000]);
+                // fault: 0 = none
+                let fault = if rng.chance(11, 20) { 0 } else { rng.range(1, 19) };
+                let mut tid = tid;
+                let mut amount = amount;
+                let mut dest_chain = rng.pick(&[ETH.to_vec(), ETH.to_vec(), AVA.to_vec(), AVA.to_vec(), b"polygon".to_vec()]).clone();
+                let mut dest_addr = rng.pick(&[b"0xRecipient".to_vec(), b"r".to_vec(), vec![0xab; 40]]).clone();
+                // payment shape
+                let shape = if tok == "EGLD" { 0 } else { rng.range(1, 4) as u64 };
+                let mut gas = match shape {
+                    0 | 1 => *rng.pick(&[0u128, 0, 1, amount - 1]).min(&(amount - 1)),
+                    _ => *rng.pick(&[1u128, 5, amount, amount + 3]),
                 };
-                w.tx(sink, &caller, "interchainTransfer", egld, &esdt, &[tid.clone(), dest_chain, dest_addr, metadata, nat(gas)]);
-            } else {
-                let dl = rng_len(rng).max(1);
-                let data = if rng.chance(1, 8) { vec![] } else { rng.bytes(dl) };
-                w.tx(sink, &caller, "callContractWithInterchainToken", egld, &esdt, &[tid.clone(), dest_chain, dest_addr, data, nat(gas)]);
+                let mut first_tok = tok.clone();
+                let mut first_nonce = 0u64;
+                let mut second: Option<(String, u64, u128)> = match shape {
+                    2 => Some((EGLD_ESDT.to_string(), 0, gas)),
+                    3 => Some((OTH.to_string(), 0, gas)),
+                    4 => Some((tok.clone(), 0, gas)),
+                    _ => None,
+                };
+                let mut third = false;
+                match fault {
+                    1 => amount = 0,
+                    2 => { if second.is_none() { gas = amount } else { second.as_mut().unwrap().2 = gas + 1 } }
+                    3 => { if second.is_none() { gas = amount + 1 } else { second.as_mut().unwrap().2 = gas.saturating_sub(1).max(1); gas += 1 } }
+                    4 => third = true,
+                    5 => { first_nonce = 3; first_tok = TOK.to_string() }
+                    6 => { second = Some((OTH.to_string(), 2, gas.max(1))); gas = gas.max(1) }
+                    7 => first_tok = if tok == OTH { TOK.to_string() } else { OTH.to_string() },
+                    8 => tid = rng.bytes(32),
+                    9 => dest_chain = b"nowhere".to_vec(),
+                    10 => dest_chain = HUB.to_vec(),
+                    11 => dest_chain = vec![],
+                    12 => dest_chain = CHAIN.to_vec(),
+                    13 => dest_addr = vec![],
+                    _ => {}
+                }
+                let (egld, esdt) = if shape == 0 && fault != 5 && fault != 7 {
+                    if fault == 4 {
+                        (0u128, format!("{}:0:{},{}:0:1,{}:0:1", EGLD_ESDT, amount, OTH, OTH))
+                    } else {
+                        (amount, "-".to_string())
+                    }
+                } else {
+                    let mut e = format!("{}:{}:{}", first_tok, first_nonce, amount);
+                    if let Some((t, n, a)) = &second {
+                        e += &format!(",{}:{}:{}", t, n, a);
+                    }
+                    if third {
+                        if second.is_none() {
+                            e += &format!(",{}:0:1", OTH);
+                        }
+                        e += &format!(",{}:0:1", OTH);
+                    }
+                    (0u128, e)
+                };
+                if rng.chance(1, 2) {
+                    let metadata: Vec<u8> = match fault {
+                        14 => cat(&[&[0, 0, 0, 1], &nest_buf(b"v1")]), // unsupported version
+                        15 => vec![1, 2, 3],                          // too short to decode
+                        16 => cat(&[&[0, 0, 0, 0], &[0, 0, 0, 9, 1]]), // truncated data
+                        _ => match rng.below(3) {
+                            0 => vec![],
+                            1 => cat(&[&[0, 0, 0, 0], &nest_buf(b"hello-data")]),
+                            _ => vec![0, 0, 0, 0],
+                        },
+                    };
+                    w.tx(sink, &caller, "interchainTransfer", egld, &esdt, &[tid.clone(), dest_chain, dest_addr, metadata, nat(gas)]);
+                } else {
+                    let dl = rng_len(rng).max(1);
+                    let data = if fault == 17 { vec![] } else { rng.bytes(dl) };
+                    w.tx(sink, &caller, "callContractWithInterchainToken", egld, &esdt, &[tid.clone(), dest_chain, dest_addr, data, nat(gas)]);
+                }
+                // fault 18: the same request again while the balance may no longer cover it / flow limits bite
             }
         }
         3 => {
@@ -714,11 +834,21 @@ fn step(rng: &mut Rng, sink: &mut Sink, w: &mut World, focus: &str) {
                     w.query(sink, "invalidTokenManagerAddress", &[tid]);
                 }
                 7 => {
-                    // linkToken outbound
-                    let salt = vec![rng.below(3) as u8; 32];
-                    let ty = rng.below(5) as u8;
-                    let chain = rng.pick(&[ETH.to_vec(), AVA.to_vec(), CHAIN.to_vec(), vec![], b"nowhere".to_vec()]).clone();
-                    w.tx(sink, &caller, "linkToken", *rng.pick(&[0u128, 7]), "-", &[salt, chain, b"0xRemoteToken".to_vec(), if ty == 0 { vec![] } else { vec![ty] }, vec![]]);
+                    // linkToken outbound: the custom token registered at set-up (deployer user 1, salt 01..01) with
+                    // zero or one fault
+                    let fault = if rng.chance(1, 2) { 0 } else { rng.range(1, 8) };
+                    let salt = if fault == 1 { vec![rng.below(3) as u8 + 2; 32] } else { vec![1u8; 32] };
+                    let ty = if fault == 2 { 0 } else { rng.range(1, 4) as u8 };
+                    let chain = match fault {
+                        3 => CHAIN.to_vec(),
+                        4 => vec![],
+                        5 => b"nowhere".to_vec(),
+                        _ => rng.pick(&[ETH.to_vec(), AVA.to_vec()]).clone(),
+                    };
+                    let dst = if fault == 6 { vec![] } else { b"0xRemoteToken".to_vec() };
+                    let c = if fault == 7 { user(2) } else { user(1) };
+                    let lp = if rng.chance(1, 2) { vec![] } else { b"0xRemoteOperator".to_vec() };
+                    w.tx(sink, &c, "linkToken", *rng.pick(&[0u128, 7]), "-", &[salt, chain, dst, if ty == 0 { vec![] } else { vec![ty] }, lp]);
                 }
                 _ => {
                     if !w.tokens.is_empty() {
@@ -740,15 +870,15 @@ fn step(rng: &mut Rng, sink: &mut Sink, w: &mut World, focus: &str) {
                     w.track(&out, PendK::Props);
                 }
                 2 | 3 => {
-                    let t = rng.pick(&[TOK, "EGLD", OTH, MB]).as_bytes().to_vec();
-                    let chain = rng.pick(&[ETH.to_vec(), AVA.to_vec(), b"nowhere".to_vec(), CHAIN.to_vec(), vec![], HUB.to_vec()]).clone();
+                    let t = rng.pick(&[TOK, TOK, TOK, "EGLD", OTH, MB]).as_bytes().to_vec();
+                    let chain = rng.pick(&[ETH.to_vec(), AVA.to_vec(), ETH.to_vec(), AVA.to_vec(), ETH.to_vec(), b"polygon".to_vec(), b"nowhere".to_vec(), CHAIN.to_vec(), vec![], HUB.to_vec()]).clone();
                     let out = w.tx(sink, &caller, "deployRemoteCanonicalInterchainToken", gas, "-", &[t, chain]);
                     w.track(&out, PendK::Props);
                 }
                 _ => {
-                    let salt = if rng.chance(2, 3) { vec![7u8; 32] } else { vec![rng.below(3) as u8 + 10; 32] };
-                    let chain = rng.pick(&[ETH.to_vec(), AVA.to_vec(), b"nowhere".to_vec(), CHAIN.to_vec()]).clone();
-                    let d = if rng.chance(2, 3) { user(1) } else { caller.clone() };
+                    let salt = if rng.chance(4, 5) { vec![7u8; 32] } else { vec![rng.below(3) as u8 + 10; 32] };
+                    let chain = rng.pick(&[ETH.to_vec(), AVA.to_vec(), ETH.to_vec(), AVA.to_vec(), b"nowhere".to_vec(), CHAIN.to_vec()]).clone();
+                    let d = if rng.chance(4, 5) { user(1) } else { caller.clone() };
                     let out = w.tx(sink, &d, "deployRemoteInterchainToken", gas, "-", &[salt, chain]);
                     w.track(&out, PendK::Props);
                 }
@@ -788,7 +918,61 @@ fn step(rng: &mut Rng, sink: &mut Sink, w: &mut World, focus: &str) {
             let minter = if rng.chance(2, 3) { user(4) } else { caller.clone() };
             let chain = rng.pick(&[ETH.to_vec(), ETH.to_vec(), AVA.to_vec(), b"nowhere".to_vec()]).clone();
             let dm = rng.pick(&[b"0xRemoteMinter".to_vec(), b"0xOther".to_vec()]).clone();
-            match rng.below(7) {
+            match rng.below(13) {
+                11 | 12 => {
+                    // the service itself is the minter (factory flow with a supply, stopped before the mint / hand-over
+                    // step, or mintership handed to the service): it must never be accepted as the minter of a remote
+                    // deployment, with or without a destination minter
+                    let salt = vec![rng.below(2) as u8 + 80; 32];
+                    let d = user(1);
+                    let good_chain = rng.pick(&[ETH.to_vec(), AVA.to_vec()]).clone();
+                    if rng.chance(2, 3) {
+                        factory_flow(rng, sink, w, &d, &salt, 987, &user(4), true);
+                    } else {
+                        // token of the set-up flow: its minter hands the role to the service
+                        let tid_out = w.query(sink, "interchainTokenId", &[user(1), vec![7u8; 32]]);
+                        if let Some(tid) = result_bytes(&tid_out) {
+                            let tm_out = w.query(sink, "deployedTokenManager", &[tid]);
+                            if let Some(tm) = result_bytes(&tm_out) {
+                                sink.exec(&format!("tx {} {} transferMintership 0 - {}", hex::encode(user(4)), hex::encode(&tm), args(&[w.its.clone()])));
+                            }
+                        }
+                    }
+                    let salt = if rng.chance(2, 3) { salt } else { vec![7u8; 32] };
+                    let mut a = vec![salt.clone(), w.its.clone(), good_chain.clone()];
+                    if rng.chance(1, 2) {
+                        a.push(dm.clone());
+                    }
+                    let out = w.tx(sink, &d, "deployRemoteInterchainTokenWithMinter", *rng.pick(&[0u128, 9]), "-", &a);
+                    w.track(&out, PendK::Props);
+                    let its = w.its.clone();
+                    w.tx(sink, &its, "approveDeployRemoteInterchainToken", 0, "-", &[d.clone(), salt.clone(), good_chain.clone(), dm.clone()]);
+                }
+                7..=10 => {
+                    // directed: the current minter approves, the deployer uses the approval — with zero or one
+                    // departure from the approved combination — then tries to use it a second time
+                    let fault = if rng.chance(1, 2) { 0 } else { rng.range(1, 9) };
+                    let good_chain = rng.pick(&[ETH.to_vec(), AVA.to_vec()]).clone();
+                    let author = if fault == 1 { user(*rng.pick(&[2u8, 3, 5])) } else { user(4) };
+                    let appr_chain = if fault == 2 { b"nowhere".to_vec() } else { good_chain.clone() };
+                    w.tx(sink, &author, "approveDeployRemoteInterchainToken", 0, "-", &[user(1), salt.clone(), appr_chain, dm.clone()]);
+                    if fault == 3 {
+                        w.tx(sink, &author, "revokeDeployRemoteInterchainToken", 0, "-", &[user(1), salt.clone(), good_chain.clone()]);
+                    }
+                    if fault == 4 {
+                        // somebody else "revokes": must not touch the author's approval
+                        w.tx(sink, &user(5), "revokeDeployRemoteInterchainToken", 0, "-", &[user(1), salt.clone(), good_chain.clone()]);
+                    }
+                    let use_chain = if fault == 5 { if good_chain == ETH.to_vec() { AVA.to_vec() } else { ETH.to_vec() } } else { good_chain.clone() };
+                    let use_dm = if fault == 6 { if dm == b"0xOther".to_vec() { b"0xRemoteMinter".to_vec() } else { b"0xOther".to_vec() } } else { dm.clone() };
+                    let use_deployer = if fault == 7 { user(2) } else { user(1) };
+                    let use_minter = if fault == 8 { user(5) } else { user(4) };
+                    let uses = if rng.chance(1, 2) { 2 } else { 1 };
+                    for _ in 0..uses {
+                        let out = w.tx(sink, &use_deployer, "deployRemoteInterchainTokenWithMinter", *rng.pick(&[0u128, 9]), "-", &[salt.clone(), use_minter.clone(), use_chain.clone(), use_dm.clone()]);
+                        w.track(&out, PendK::Props);
+                    }
+                }
                 6 => {
                     // an approval outlives its author's minter role: approve, hand the role over, then use
                     let author = user(4);
@@ -839,6 +1023,113 @@ fn step(rng: &mut Rng, sink: &mut Sink, w: &mut World, focus: &str) {
         _ => {
             w.now += *rng.pick(&[1u64, 1000, 21599, 21600, 21601, 50000]);
             sink.exec(&format!("time {}", w.now));
+        }
+    }
+}
+
+/// the fully random outbound request (several faults may stack)
+fn outbound_random(rng: &mut Rng, sink: &mut Sink, w: &mut World, caller: &[u8]) {
+    let caller = caller.to_vec();
+    let (tid, tok, _k) = pick_token(rng, w);
+    let tok = if tok.is_empty() { OTH.to_string() } else { tok };
+    let tok = if rng.chance(1, 12) { OTH.to_string() } else { tok }; // token not matching the id
+    let amount = *rng.pick(&[0u128, 1, 10, 100, 1000]);
+    let gas = *rng.pick(&[0u128, 0, 1, 5, amount.saturating_sub(1), amount, amount + 1]);
+    let (egld, esdt) = if tok == "EGLD" {
+        match rng.below(4) {
+            0 => (0u128, format!("{}:0:{},{}:0:{}", EGLD_ESDT, amount, EGLD_ESDT, gas)),
+            _ => (amount, "-".to_string()),
+        }
+    } else {
+        match rng.below(8) {
+            0 | 1 => (0u128, format!("{}:0:{},{}:0:{}", tok, amount, EGLD_ESDT, gas)), // gas as EGLD-in-ESDT
+            2 => (0u128, format!("{}:0:{},{}:0:{}", tok, amount, OTH, gas)),            // gas in another ESDT
+            3 => (0u128, format!("{}:0:{},{}:0:{}", tok, amount, tok, gas + 1)),          // second payment != gas
+            4 => (0u128, format!("{}:0:{},{}:0:1,{}:0:1", tok, amount, OTH, OTH)),        // three payments
+            _ => (0u128, format!("{}:0:{}", tok, amount)),
+        }
+    };
+    let dest_chain = rng.pick(&[ETH.to_vec(), ETH.to_vec(), AVA.to_vec(), AVA.to_vec(), b"nowhere".to_vec(), HUB.to_vec(), vec![]]).clone();
+    let dest_addr = if rng.chance(1, 10) { vec![] } else { b"0xRecipient".to_vec() };
+    if rng.chance(1, 2) {
+        let metadata: Vec<u8> = match rng.below(6) {
+            0 => vec![],
+            1 => cat(&[&[0, 0, 0, 0], &nest_buf(b"hello-data")]),
+            2 => vec![0, 0, 0, 0],
+            3 => cat(&[&[0, 0, 0, 1], &nest_buf(b"v1")]), // unsupported version
+            4 => vec![1, 2, 3],                          // too short to decode
+            _ => cat(&[&[0, 0, 0, 0], &[0, 0, 0, 9, 1]]), // truncated data
+        };
+        w.tx(sink, &caller, "interchainTransfer", egld, &esdt, &[tid.clone(), dest_chain, dest_addr, metadata, nat(gas)]);
+    } else {
+        let dl = rng_len(rng).max(1);
+        let data = if rng.chance(1, 8) { vec![] } else { rng.bytes(dl) };
+        w.tx(sink, &caller, "callContractWithInterchainToken", egld, &esdt, &[tid.clone(), dest_chain, dest_addr, data, nat(gas)]);
+    }
+}
+
+/// the fully random inbound transfer (several faults may stack)
+fn inbound_random(rng: &mut Rng, sink: &mut Sink, w: &mut World, caller: &[u8], kind: usize) {
+    let caller = caller.to_vec();
+    let (tid, _tok, _k) = pick_token(rng, w);
+    let dest = match rng.below(12) {
+        0 => vec![1u8; 31], // malformed recipient
+        _ => user(rng.below(6) as u8),
+    };
+    let amount = *rng.pick(&[1u128, 5, 10, 100, 1000, 6000]);
+    let dl = rng_len(rng);
+    let data = if kind == 1 { rng.bytes(dl) } else { vec![] };
+    let inner = match rng.below(16) {
+        0 => sol_enc("transfer", &[word_nat(7), tid.clone(), b"0xsrc".to_vec(), dest.clone(), word_nat(amount), data.clone()]), // unknown message type
+        1 => {
+            // message-type word beyond every integer width the code converts through
+            let mut w = vec![0u8; 32];
+            match rng.below(4) {
+                0 => w[24] = 0x80,                 // 2^63
+                1 => w[23] = 1,                    // 2^64
+                2 => w[0] = 0x80,                  // 2^255
+                _ => { w[23] = 1; w[31] = 1 }      // 2^64 + 1
+            }
+            sol_enc("transfer", &[w, tid.clone(), b"0xsrc".to_vec(), dest.clone(), word_nat(amount), data.clone()])
+        }
+        _ => transfer_payload(&tid, b"0xsrc", &dest, amount, &data),
+    };
+    let (chain, src, payload) = inbound_source(rng, &inner);
+    match rng.below(12) {
+        0 => {
+            // not approved
+            w.next_msg += 1;
+            let id = format!("msg-{}", w.next_msg).into_bytes();
+            w.execute(sink, &caller, &chain, &id, &src, &payload, 0);
+        }
+        1 => {
+            // approved, executed with a tampered payload
+            let id = w.approve(rng, sink, &chain, &src, &payload, None);
+            let mut p2 = payload.clone();
+            let l = p2.len();
+            p2[l - 40] ^= 1;
+            w.execute(sink, &caller, &chain, &id, &src, &p2, 0);
+        }
+        2 => {
+            // wrong source address
+            let id = w.approve(rng, sink, &chain, b"0xEvil", &payload, None);
+            w.execute(sink, &caller, &chain, &id, b"0xEvil", &payload, 0);
+        }
+        3 => {
+            // replay of an earlier message
+            if let Some((c, i, s, p)) = w.approved.last().cloned() {
+                w.execute(sink, &caller, &c, &i, &s, &p, 0);
+            }
+        }
+        _ => {
+            let id = w.approve(rng, sink, &chain, &src, &payload, None);
+            w.execute(sink, &caller, &chain, &id, &src, &payload, if rng.chance(1, 15) { 5 } else { 0 });
+            if rng.chance(1, 3) {
+                // immediate second attempt
+                w.execute(sink, &caller, &chain, &id, &src, &payload, 0);
+            }
+            sink.exec(&format!("query {} isMessageExecuted {}", hex::encode(&w.gw.addr), args(&[chain.clone(), id.clone()])));
+            w.query(sink, "transferWithDataLock", &[chain.clone(), id.clone()]);
         }
     }
 }
